@@ -422,9 +422,9 @@ func (r *runner) caller(si int) {
 	}
 	if sd.WaitAfterAll {
 		sim.Hold(engine.HoldCounter, ctrEnded(si), len(sd.Jobs))
-		for k := 0; k < 6; k++ {
-			sim.Yield(engine.HsMisc) // and a little later still
-		}
+		// ... and only once the scheduler has come to rest: whatever the last result set off
+		// inside it (a job made ready once more, say) has happened by then
+		sim.Hold(engine.HoldQuiet, 0, 0)
 		if sim.Aborted() {
 			return
 		}
